@@ -51,6 +51,15 @@ def table_row(code, digits):
     return row
 
 
+def near_corner_history(rng, cls, dt, cut, kw):
+    """history: another record was filtered just before with the same type, order and time step but corner frequencies a
+    few parts in a hundred / thousand / ten thousand away -- each call designs the filter for its own corners"""
+    d = float(rng.choice([3e-2, -2e-2, 1e-3, 4e-4, -5e-3]))
+    near = tuple(None if c is None else float(c) * (1.0 + d) for c in cut)
+    other = cls(np.random.default_rng(int(rng.integers(1 << 30))).standard_normal(400), dt)
+    other.butter_pass(near, **kw)
+
+
 def build_traces(path, tier, seed):
     import eqsig
     from eqsig import exceptions
@@ -109,6 +118,8 @@ def build_traces(path, tier, seed):
                 kw = {"filter_order": gen.intlike(rng, order)}
                 if gibbs is not None:
                     kw["remove_gibbs"] = gibbs
+                if rng.integers(3):
+                    near_corner_history(rng, cls, dt, cut, kw)
                 o.butter_pass(cut_arg, **kw)
             y, nout, dtout = np.asarray(o.values, dtype=float), int(o.npts), float(o.dt)
         except (AttributeError, TypeError) as ex:
@@ -155,6 +166,8 @@ def build_traces(path, tier, seed):
             kw["remove_gibbs"] = "mid"
         with warnings.catch_warnings():
             warnings.simplefilter("ignore")
+            if rng.integers(3):
+                near_corner_history(rng, cls, dt, cut, kw)
             o.butter_pass(list(cut) if j % 2 else cut, **kw)
         y = np.asarray(o.values, dtype=float)
         sel = np.linspace(n // 4, (3 * n) // 4 - 1, 200).astype(int)
